@@ -6,7 +6,8 @@ at every step that the observed relation call -> result is a function, i.e. equa
 import core
 
 def enc(r):
-    if isinstance(r, (bytes, bytearray)): return 'bytes:' + bytes(r).hex()
+    if isinstance(r, bytes): return 'bytes:' + r.hex()
+    if isinstance(r, bytearray): return 'bytearray:' + bytes(r).hex()           # a result of another type than the fresh object's is a different outcome
     if r is None: return 'None'
     if isinstance(r, (int, str, bool)): return repr(r)
     if isinstance(r, (list, tuple)): return 'seq:' + repr([enc(x) for x in r])
@@ -119,7 +120,7 @@ def kinds():
     cipherkind('Serpent', lambda: serpent.Serpent(BLK(20)), 16); cipherkind('Threefish', lambda: threefish.Threefish(BLK(32), BLK(16)), 32)
     def modekind(name, factory, bl, raising):
         K[name] = (factory, [
-            ('enc M1', True, lambda e: e.A.enc(M1[:2 * bl + (0 if 'nopad' in name else 3)])), ('dec(enc M2)', True, lambda e: e.A.dec(e.B.enc(M2[:3 * bl]))), ('call that raises', False, raising),
+            ('enc M1', True, lambda e: e.A.enc(M1[:2 * bl + (0 if 'nopad' in name else 3)])), ('dec(enc M2)', True, lambda e: e.A.dec(e.B.enc(M2[:3 * bl]))), ('call that raises / iterblocks consumed', False, lambda e: (list(e.A.iterblocks(M1[:bl + (0 if 'nopad' in name else 3)])) if hasattr(e.A, 'iterblocks') else None, raising(e))[1]),
             ('enc M3', True, lambda e: e.A.enc(M3[:4 * bl])), ('sibling enc M1', True, lambda e: e.B.enc(M1[:2 * bl + (0 if 'nopad' in name else 3)])), ('enc empty / one block', True, lambda e: e.A.enc(b'' if 'nopad' not in name else M1[:bl]))])
     modekind('ECB', lambda: mode.ECB(aes.AES(BLK(16))), 16, lambda e: e.A.dec(b'x' * 17))
     modekind('CBC', lambda: mode.CBC(aes.AES(BLK(16)), BLK(16)[::-1]), 16, lambda e: e.A.dec(b'x' * 17))
